@@ -2,6 +2,7 @@ package events
 
 import (
 	"context"
+	"github.com/mongodb/ftdc/verifhook"
 	"sync"
 	"time"
 
@@ -49,6 +50,7 @@ func (r *intervalHistogramStream) worker(ctx context.Context, interval time.Dura
 		case <-ctx.Done():
 			return
 		case <-ticker.C:
+			verifhook.Point("interval.tick")
 			r.Lock()
 			// check context error in case in between the time when
 			// the lock is requested and when the lock is obtained,
